@@ -3,7 +3,7 @@
 from copy import copy
 
 from kernel import type as hol_type
-from kernel.type import Type
+from kernel.type import Type, TyInst
 from kernel import term
 from kernel.term import Term, Inst
 from kernel.thm import Thm
@@ -97,6 +97,10 @@ def print_str_args(rule, args, th):
             items = sorted(val.items(), key = lambda pair: pair[0])
             return pprint.N('{') + commas_join(pprint.N(key + ': ') + str_val(val)
                                                for key, val in items) + pprint.N('}')
+        elif isinstance(val, TyInst):
+            items = sorted(val.items(), key = lambda pair: pair[0])
+            return pprint.N('{') + commas_join(pprint.N(key + ': ') + print_type(T)
+                                               for key, T in items) + pprint.N('}')
         elif isinstance(val, Term):
             if th and val == th.prop and rule != 'assume' and settings.highlight:
                 return pprint.Gray("⟨goal⟩")
